@@ -296,7 +296,7 @@ static void ev_ledger(void) {
 
 /* ------------------------------------------------------------------ value table */
 
-enum { VT_INT = 1, VT_STR = 2, VT_FLT = 3, VT_PROBE = 4, VT_BOX = 5, VT_ODD = 6 };   /* VT_BOX: a Box owning a managed Probe */
+enum { VT_INT = 1, VT_STR = 2, VT_FLT = 3, VT_PROBE = 4, VT_BOX = 5, VT_ODD = 6, VT_PAIR = 7 };   /* VT_BOX: a Box owning a managed Probe */
 /* a plain 12-byte record (no Swap, Assign or Hash instance of its own: the library's byte-wise defaults apply); the two
    payload fields are functions of the key, so a record whose bytes were mixed with another one's is recognised */
 struct Odd12 { int32_t key, a, b; };
@@ -304,6 +304,11 @@ static void Odd12_New(var self, var args) { struct Odd12* o = self; o->key = (in
 static int Odd12_Cmp(var self, var obj) { struct Odd12* x = self; struct Odd12* y = cast(obj, type_of(self)); return x->key < y->key ? -1 : x->key > y->key ? 1 : 0; }
 var Odd12 = Cello(Odd12, Instance(New, Odd12_New, NULL), Instance(Cmp, Odd12_Cmp));
 static void odd12_init(void) { }
+/* a plain 16-byte record with NO instances at all (default byte-wise cmp / eq / hash, default assign): value v is the pair
+   (v >> 2, v & 3), so different values share their first 8 bytes; for 0 <= v < 1024 the byte-wise order is the order of v */
+struct Pair16 { int64_t hi, lo; };
+var Pair16 = Cello(Pair16);
+static var pair16_make(int64_t v) { struct Pair16* p = alloc_raw(Pair16); p->hi = v >> 2; p->lo = v & 3; return p; }
 struct Val { int kind; int64_t i; double f; char* s; size_t sl; };
 #define HC_MAXV 4096
 static struct Val vt_k[HC_MAXV], vt_v[HC_MAXV];   /* two universes: keys/elements and values */
@@ -312,15 +317,15 @@ static int vt_nk = 0, vt_nv = 0;
 static int vt_kind_of(const char* s) {
   if (!strcmp(s, "Int")) return VT_INT; if (!strcmp(s, "String")) return VT_STR;
   if (!strcmp(s, "Float")) return VT_FLT; if (!strcmp(s, "Probe")) return VT_PROBE; if (!strcmp(s, "Box")) return VT_BOX;
-  if (!strcmp(s, "Odd12")) { odd12_init(); return VT_ODD; } return 0;
+  if (!strcmp(s, "Odd12")) { odd12_init(); return VT_ODD; } if (!strcmp(s, "Pair16")) return VT_PAIR; return 0;
 }
-static var vt_type(int kind) { return kind == VT_ODD ? Odd12 : kind == VT_INT ? Int : kind == VT_STR ? String : kind == VT_FLT ? Float : kind == VT_BOX ? Box : Probe; }
+static var vt_type(int kind) { return kind == VT_PAIR ? Pair16 : kind == VT_ODD ? Odd12 : kind == VT_INT ? Int : kind == VT_STR ? String : kind == VT_FLT ? Float : kind == VT_BOX ? Box : Probe; }
 
 /* parse "<tok> <spec>" : Int/Probe decimal, String hex, Float hex of the IEEE bits */
 static void vt_define(struct Val* tab, int* n, int kind, int tok, const char* spec) {
   if (tok <= 0 || tok >= HC_MAXV) { fprintf(stderr, "bad token %d\n", tok); exit(9); }
   struct Val* v = &tab[tok]; v->kind = kind;
-  if (kind == VT_INT || kind == VT_PROBE || kind == VT_BOX || kind == VT_ODD) v->i = strtoll(spec, NULL, 10);
+  if (kind == VT_INT || kind == VT_PROBE || kind == VT_BOX || kind == VT_ODD || kind == VT_PAIR) v->i = strtoll(spec, NULL, 10);
   else if (kind == VT_FLT) { uint64_t b = strtoull(spec, NULL, 16); memcpy(&v->f, &b, 8); }
   else { size_t cap = strlen(spec) / 2 + 2; v->s = malloc(cap); v->sl = hc_unhex(spec, (unsigned char*)v->s, cap - 1); v->s[v->sl] = 0; }
   if (tok > *n) *n = tok;
@@ -336,6 +341,7 @@ static var vt_make(struct Val* tab, int tok) {
     case VT_PROBE: return new_raw(Probe, $I(v->i));
     case VT_BOX: return new(Probe, $I(v->i));      /* managed: a Box deletes its pointee with del() */
     case VT_ODD: return new_raw(Odd12, $I(v->i));
+    case VT_PAIR: return pair16_make(v->i);
   }
   return NULL;
 }
@@ -354,6 +360,7 @@ static int vt_token(struct Val* tab, int n, var o) {
     else if (v->kind == VT_PROBE && t == Probe) { if (((struct Probe*)o)->val == v->i) return k; }
     else if (v->kind == VT_BOX && t == Box) { struct Probe* pp = ((struct Box*)o)->val; if (pp && pp->val == v->i) return k; }
     else if (v->kind == VT_BOX && t == Probe) { if (((struct Probe*)o)->val == v->i) return k; }
+    else if (v->kind == VT_PAIR && t == Pair16) { struct Pair16* r = o; if (r->hi == (v->i >> 2) && r->lo == (v->i & 3)) return k; }
     else if (v->kind == VT_ODD && t == Odd12) { struct Odd12* r = o; if (r->key == (int32_t)v->i && r->a == r->key * 3 + 1 && r->b == r->key * 7 + 2) return k; }
   }
   return 0;
